@@ -16,7 +16,8 @@ EXPLANATION = (
     "size; clear() overwrites the whole struct with new(), which zero-initialises every field (ADT-enumerated). "
     "R10.4: the tally is a thread_local and only reached through the current thread's pointer. This decides which "
     "operands feed which field on every path, not the arithmetic itself."
-    " R10.5 clear is unconditional and total.")
+    " R10.5 clear is unconditional and total. R10.6 the running totals (negative once memory from before the clearing "
+    "point is released after it) are never converted to an unsigned type before the peak comparison.")
 NOT_DECIDED = ["numerical exactness of sums/maxima over arbitrary operation sequences (value computation)",
                "overflow behaviour beyond 2^63 operations"]
 
@@ -316,7 +317,25 @@ def _implies_le(summary, x, y):
     return summary.cond(("Lt", x, y)) is True or summary.cond(("Lt", y, x)) is False or x == y
 
 
-def _max_update_ok(summary, key, old, cand):
+def _self_field_ty(b, field):
+    """Type of self.<field> as MIR spells it at a read or write of that place."""
+    import json as _json
+    for bi, si, st in b.stmts():
+        if st["k"] != "assign":
+            continue
+        stack = [st["p"], st["rv"]]
+        while stack:
+            x = stack.pop()
+            if isinstance(x, dict):
+                if "l" in x and "proj" in x and x["l"] == 1 and place_fields(x) == (field,) and x.get("ty"):
+                    return x["ty"]
+                stack.extend(x.values())
+            elif isinstance(x, list):
+                stack.extend(x)
+    return None
+
+
+def _max_update_ok(summary, key, old, cand, old_unsigned=False):
     """On this path the cell `key` ends up as max(old, cand): written with Ord::max of the two (either order), or written
     with cand on a path that implies old <= cand, or left alone on a path that implies cand <= old."""
     if key in summary.mem:
@@ -328,7 +347,12 @@ def _max_update_ok(summary, key, old, cand):
         if v == old and _implies_le(summary, cand, old):
             return True, "rewritten-with-itself"
         return False, v
-    return (True, "left-alone") if _implies_le(summary, cand, old) else (False, "not written on a path that does not imply %s <= %s" % (show(cand), show(old)))
+    if _implies_le(summary, cand, old):
+        return True, "left-alone"
+    if old_unsigned and _implies_le(summary, cand, ("int", 0)):
+        # an unsigned maximum is at least 0: a candidate that is not positive cannot raise it
+        return True, "left-alone-for-a-non-positive-candidate"
+    return False, "not written on a path that does not imply %s <= %s" % (show(cand), show(old))
 
 
 def r10_3(ctx, prog, crate):
@@ -371,7 +395,7 @@ def r10_3(ctx, prog, crate):
             # max_* : running maximum of the updated current value, or untouched
             for f, tracked, cur_new in (("max_count", mxc, cc), ("max_size", mxs, cs)):
                 if tracked:
-                    ok, how = _max_update_ok(sm, K(f), F(f), cur_new)
+                    ok, how = _max_update_ok(sm, K(f), F(f), cur_new, old_unsigned=(_self_field_ty(b, f) or "").startswith("u"))
                     ctx.check(ok, "R10.3", [fn, f, "is-max-of-both"], "`%s` leaves %s = %s, expected max(%s, %s)" % (fn, f, how if isinstance(how, str) else show(how), show(F(f)), show(cur_new)),
                               where, detail=how if isinstance(how, str) else None)
                 else:
@@ -521,8 +545,58 @@ def r10_5(ctx, prog, crate):
         ctx.check(zero and not nonzero, "R10.5", ["AllocOpMap::new", "all-zero"], "AllocOpMap::new() is not an all-zero map (calls %s)" % calls, mb.where(0))
 
 
+def r10_6(ctx, prog, crate):
+    """The peak is compared as a signed value. current_count/current_size are relative to the clearing point: memory that
+    was allocated before the clear and is released after it drives them below zero, and `max(max_x, current_x)` then has to
+    keep max_x. A conversion of the (possibly negative) running total to an unsigned type before the comparison wraps to
+    about 2^64 and wins the max. Rule: in the tally functions no value that comes from current_count/current_size is cast
+    from a signed to an unsigned integer type, unless a test of that value against zero dominates the cast."""
+    SIGNED = ("i8", "i16", "i32", "i64", "i128", "isize")
+    UNSIGNED = ("u8", "u16", "u32", "u64", "u128", "usize")
+    reads = 0
+    for fn in ("tally_alloc", "tally_dealloc", "tally_realloc"):
+        b = prog.body("alloc::ThreadAllocInfo::" + fn, crate)
+        if b is None:
+            continue
+        ctx.saw(b)
+        for bi, si, s in b.stmts():
+            rv = s.get("rv") if s["k"] == "assign" else None
+            if not rv:
+                continue
+            ops = [rv.get("o"), rv.get("a"), rv.get("b")] + list(rv.get("ops", []))
+            for o in ops:
+                if o and o.get("k") in ("copy", "move") and any(z.kind == "param" and z.b in (("current_count",), ("current_size",)) for z in b.prov.op_src(o)):
+                    reads += 1
+                    pf = place_fields(o["p"])
+                    if o["p"]["l"] == 1 and pf in (("current_count",), ("current_size",)) and o["p"].get("ty"):
+                        ctx.check(o["p"]["ty"] in SIGNED, "R10.6", [fn, pf[0], "running-total-is-signed"],
+                                  "the running total %s has the unsigned type %s: releasing memory from before the clearing point underflows it" % (pf[0], o["p"]["ty"]), b.where(bi))
+            if rv["k"] != "cast" or rv["o"].get("k") not in ("copy", "move"):
+                continue
+            pl = rv["o"]["p"]
+            sty = pl.get("ty") or (b.local_ty(pl["l"]) if not pl["proj"] else None)
+            if sty not in SIGNED or rv["ty"] not in UNSIGNED:
+                continue
+            fields = sorted({z.b[0] for z in b.prov.op_src(rv["o"]) if z.kind == "param" and z.b in (("current_count",), ("current_size",))})
+            if not fields:
+                continue
+            guarded = False
+            for sb, t in b.switches():
+                if not (b.dominates(sb, bi) and sb != bi):
+                    continue
+                d = direct_place(b, t["discr"])
+                if d and d[0] == "rvalue" and d[1]["k"] == "binop" and d[1]["op"] in ("Lt", "Le", "Gt", "Ge") and any(const_int(x) == 0 for x in (d[1]["a"], d[1]["b"])) and \
+                        any(z.kind == "param" and z.b and z.b[0] in fields for x in (d[1]["a"], d[1]["b"]) for z in b.prov.op_src(x)):
+                    guarded = True
+            ctx.check(guarded, "R10.6", [fn] + fields + ["compared-as-signed"],
+                      "`%s` converts the running %s (negative once memory from before the clearing point is released) to %s before it is compared: the wrapped value wins the max"
+                      % (fn, "/".join(fields), rv["ty"]), b.where(bi))
+    ctx.anchor("R10.6", "reads of the running totals in the tally functions", reads, 4)
+
+
 def run(ctx, prog, crate):
     r10_5(ctx, prog, crate)
+    r10_6(ctx, prog, crate)
     r10_1(ctx, prog, crate)
     r10_2(ctx, prog, crate)
     r10_3(ctx, prog, crate)
